@@ -37,6 +37,9 @@ type Page struct {
 	Edge   string   `json:"edge"`              // none embedded embedded-id remote stub back broken-404 broken-type broken-note
 	BackTo int      `json:"back_to,omitempty"` // back: index of an earlier (or the same) remote page
 	Remote bool     `json:"remote"`            // derived: this page is served by the simulator (has a URL)
+	// Decor: links real servers put on pages and collections that do not continue the sequence (prev, partOf, last,
+	// current, and first on a page): key -> index of the page named (-1: a URL that does not exist)
+	Decor map[string]int `json:"decor,omitempty"`
 }
 
 type Call struct {
@@ -89,6 +92,13 @@ func (c Case) doc(prefix string, i int) map[string]any {
 	if p.Total != nil {
 		m["totalItems"] = *p.Total // informational only: what a page says about the size must not change what is delivered
 	}
+	for key, to := range p.Decor {
+		if to < 0 {
+			m[key] = "https://%H0%" + prefix + "/missing"
+		} else {
+			m[key] = pageURL(prefix, to)
+		}
+	}
 	nextKey := "next"
 	if i == 0 {
 		nextKey = "first"
@@ -115,6 +125,8 @@ func (c Case) doc(prefix string, i int) map[string]any {
 		m[nextKey] = 42
 	case "broken-note":
 		m[nextKey] = "https://%H0%" + prefix + "/note"
+	case "broken-stall":
+		m[nextKey] = "https://%H0%" + prefix + "/silent" // accepts the request and never answers: the load times out
 	}
 	return m
 }
@@ -127,6 +139,7 @@ func (c Case) install(prefix string) {
 			sim.Set(0, prefix+"/page"+fmt.Sprint(i), vsim.JSON(string(b)))
 		}
 	}
+	sim.Set(0, prefix+"/silent", &vsim.Route{Raw: "HTTP/1.1 200 OK\r\nContent-Type: application/activity+json\r\n\r\n{}", Fault: &vsim.Fault{Kind: "stall", At: 0, HoldMs: 1200}})
 	sim.Set(0, prefix+"/note", vsim.JSON(`{"id":"https://%H0%`+prefix+`/note","type":"Note","content":"not a collection"}`))
 }
 
@@ -233,6 +246,9 @@ func check(c Case) vrep.Result {
 		if strings.HasPrefix(p.Edge, "broken") {
 			hasBroken = true
 		}
+		if p.Edge == "broken-stall" {
+			classes = append(classes, "next-page-times-out")
+		}
 	}
 	if emptyCount >= 4 && maxRun <= 3 {
 		nonConsecutiveEmpties = true
@@ -246,6 +262,12 @@ func check(c Case) vrep.Result {
 	}
 	if hasBroken {
 		classes = append(classes, "has-broken-edge")
+	}
+	for _, p := range c.Pages {
+		if len(p.Decor) > 0 {
+			classes = append(classes, "decorative-links")
+			break
+		}
 	}
 	if len(c.Pages[0].Items) > 0 {
 		classes = append(classes, "items-on-root")
@@ -377,8 +399,24 @@ func gen(t *rapid.T) Case {
 			edges = []string{"none", "none", "none", "broken-404", "broken-type", "broken-note", "back"}
 		}
 		p.Edge = rapid.SampledFrom(edges).Draw(t, "edge")
+		if last && rapid.IntRange(0, 39).Draw(t, "stalls") == 23 {
+			p.Edge = "broken-stall" // costs a network timeout per visit: rare
+		}
 		if !last {
 			c.Pages[i+1].Remote = p.Edge == "remote" || p.Edge == "stub" || p.Edge == "embedded-id"
+		}
+	}
+	for i := range c.Pages {
+		if rapid.IntRange(0, 2).Draw(t, "decorated") > 0 {
+			continue
+		}
+		keys := []string{"first", "prev", "partOf", "last", "current"}
+		if i == 0 {
+			keys = []string{"last", "current", "partOf", "prev"}
+		}
+		c.Pages[i].Decor = map[string]int{}
+		for n := rapid.IntRange(1, 3).Draw(t, "ndecor"); n > 0; n-- {
+			c.Pages[i].Decor[rapid.SampledFrom(keys).Draw(t, "decorkey")] = rapid.IntRange(-1, np-1).Draw(t, "decorto")
 		}
 	}
 	lastp := &c.Pages[np-1]
